@@ -505,10 +505,15 @@ func (p *parser) parseValueExpression() *ValueExpression {
 		}
 
 		if tok := p.l.Peek(); tok.Type == String {
+			// Adjacent literals are concatenated. Whatever follows the last of them (a slice,
+			// method call etc) applies to the concatenated string, not just to that literal.
 			p.enter(tok)
 			rhs := p.parseValueExpression()
 			p.leave()
-			return concatStrings(ve, rhs)
+			slices, property, call := rhs.Slices, rhs.Property, rhs.Call
+			ve = concatStrings(ve, rhs)
+			ve.Slices, ve.Property, ve.Call = slices, property, call
+			return ve
 		}
 	} else if tok.Type == Int {
 		p.assert(len(tok.Value) < 19, tok, "int literal is too large: %s", tok)
